@@ -85,33 +85,33 @@ example : ∃ (canDist : DistCase → Bool) (t t' : DExpr) (env : String → Arr
 
 /-! ## non-vacuity -/
 
-def exA : Arr Rat := Arr.ofList [2, 3] [1, 2, 3, 4, 5, 6] 0
-def exX : Arr Rat := Arr.ofList [3] [1, 2, 3] 0
-def exY : Arr Rat := Arr.ofList [3] [10, 20, 30] 0
-def exU : Arr Rat := Arr.ofList [1] [7] 0
-def exEnv (n : String) : Arr Rat :=
-  if n = "A" then exA else if n = "x" then exX else if n = "y" then exY else exU
-def exOpq (_ : String) (_ : List (Arr Rat)) : Arr Rat := ⟨[], fun _ => 0⟩
-def exCan (c : DistCase) : Bool := linearCase c.op c.x1Scalar c.x2Scalar c.shapesEqual
+def c06A : Arr Rat := Arr.ofList [2, 3] [1, 2, 3, 4, 5, 6] 0
+def c06X : Arr Rat := Arr.ofList [3] [1, 2, 3] 0
+def c06Y : Arr Rat := Arr.ofList [3] [10, 20, 30] 0
+def c06U : Arr Rat := Arr.ofList [1] [7] 0
+def c06Env (n : String) : Arr Rat :=
+  if n = "A" then c06A else if n = "x" then c06X else if n = "y" then c06Y else c06U
+def c06Opq (_ : String) (_ : List (Arr Rat)) : Arr Rat := ⟨[], fun _ => 0⟩
+def c06Can (c : DistCase) : Bool := linearCase c.op c.x1Scalar c.x2Scalar c.shapesEqual
 /-- `einsum("ij,j->i", A, ((x + y) * 2 - x / 4))`, distributed over operand 1 -/
-def exT : DExpr :=
+def c06T : DExpr :=
   .einsum [[.elem 0, .red 0], [.red 0]] 1
     [.leaf "A", .sub true (.muls (.add true (.leaf "x") (.leaf "y")) 2) (.divs (.leaf "x") 4)]
 
-example : ∀ c, exCan c = true → Linear c := fun _ h => h
-example : exT.WF exEnv exOpq := by
-  simp only [exT, DExpr.WF, DExpr.WFList, DExpr.denote, Arr.muls, Arr.add, Arr.sdiv, exEnv]
+example : ∀ c, c06Can c = true → Linear c := fun _ h => h
+example : c06T.WF c06Env c06Opq := by
+  simp only [c06T, DExpr.WF, DExpr.WFList, DExpr.denote, Arr.muls, Arr.add, Arr.sdiv, c06Env]
   decide
-example : (distribute (fun _ => some 1) exCan exT none).toOption.isSome = true := by decide
-example : ((distribute (fun _ => some 1) exCan exT none).toOption.map
-    fun t' => (t'.denote exEnv exOpq).toList) = some [(609 : Rat) / 2, 696] := by decide +kernel
-example : (exT.denote exEnv exOpq).toList = [(609 : Rat) / 2, 696] := by decide +kernel
+example : (distribute (fun _ => some 1) c06Can c06T none).toOption.isSome = true := by decide
+example : ((distribute (fun _ => some 1) c06Can c06T none).toOption.map
+    fun t' => (t'.denote c06Env c06Opq).toList) = some [(609 : Rat) / 2, 696] := by decide +kernel
+example : (c06T.denote c06Env c06Opq).toList = [(609 : Rat) / 2, 696] := by decide +kernel
 /-- multilinearity with a broadcast-unit operand: `einsum("ij,j->i", A, u + u)`, `u` of shape (1,) -/
-example : (Spec.einsum [[.elem 0, .red 0], [.red 0]] 1 [exA, Arr.add exU exU]).toList
-    = (Arr.add (Spec.einsum [[.elem 0, .red 0], [.red 0]] 1 [exA, exU])
-        (Spec.einsum [[.elem 0, .red 0], [.red 0]] 1 [exA, exU])).toList := by decide +kernel
+example : (Spec.einsum [[.elem 0, .red 0], [.red 0]] 1 [c06A, Arr.add c06U c06U]).toList
+    = (Arr.add (Spec.einsum [[.elem 0, .red 0], [.red 0]] 1 [c06A, c06U])
+        (Spec.einsum [[.elem 0, .red 0], [.red 0]] 1 [c06A, c06U])).toList := by decide +kernel
 /-- the error path: a `DoDistribute` einsum under a distribution context -/
-example : distribute (fun _ => some 0) exCan
+example : distribute (fun _ => some 0) c06Can
     (.einsum [[.red 0], [.red 0]] 0 [.einsum [[.elem 0, .red 0], [.red 0]] 1 [.leaf "A", .leaf "x"],
       .leaf "x"]) none = .error "Cannot distribute composed einsums." := rfl
 
